@@ -1365,7 +1365,7 @@ func (tc *typechecker) explodeUsingStatement(using *ast.Using, iteaIdent string)
 	var itea ast.Expression
 	switch typ := using.Type.(type) {
 	case *ast.Identifier:
-		itea = ast.NewCall(nil,
+		itea = ast.NewCall(using.Position,
 			ast.NewFunc(using.Position, nil,
 				ast.NewFuncType(nil, true, nil, []*ast.Parameter{ast.NewParameter(nil, typ)}, false),
 				using.Body, false, using.Format),
@@ -1377,8 +1377,8 @@ func (tc *typechecker) explodeUsingStatement(using *ast.Using, iteaIdent string)
 	}
 
 	iteaDeclaration := ast.NewVar(
-		nil,
-		[]*ast.Identifier{ast.NewIdentifier(nil, iteaIdent)},
+		using.Position,
+		[]*ast.Identifier{ast.NewIdentifier(using.Position, iteaIdent)},
 		nil,
 		[]ast.Expression{itea},
 	)
